@@ -896,6 +896,15 @@ def _restore_pairing(fi, subs, adds):
             is_tally = isinstance(s, (ast.AugAssign, ast.Assign)) and isinstance(
                 s.target if isinstance(s, ast.AugAssign) else s.targets[0], ast.Subscript) and ast.unparse(
                 (s.target if isinstance(s, ast.AugAssign) else s.targets[0]).value) == log
+            if is_call and s.value.func.attr == "add" and not _is_multiset(fi.node, log):
+                # the log is a set: a cell decremented twice (two symbols of one body found) is recorded once and
+                # restored once - unless the decrement itself only happens for cells not yet in the log
+                guarded = any(isinstance(t_, ast.Compare) and isinstance(t_.ops[0], (ast.In, ast.NotIn)) and
+                              isinstance(t_.comparators[0], ast.Name) and t_.comparators[0].id == log
+                              for t_ in ast.walk(fi.node))
+                if not guarded:
+                    return False, "the modification log %s is a set: a counter decremented twice is recorded once and " \
+                                  "restored once" % log, s
             if is_call or is_tally:
                 got = {x.id for x in ast.walk(s) if isinstance(x, ast.Name)} - {log}
 
@@ -927,6 +936,19 @@ def _restore_pairing(fi, subs, adds):
     if not any(_xshape(fi.node, a.target) == tgt_sub for a in adds):
         return False, "restore increments a different location than the decrement", adds[0]
     return True, "", None
+
+
+def _is_multiset(fn, log):
+    """the log is created as something that keeps multiplicity (a list / deque / Counter), not a set"""
+    for st in ast.walk(fn):
+        if isinstance(st, ast.Assign) and any(isinstance(t_, ast.Name) and t_.id == log for t_ in st.targets):
+            v = st.value
+            if isinstance(v, ast.Set) or (isinstance(v, ast.Call) and getattr(v.func, "id", getattr(v.func, "attr", "")) in
+                                           ("set", "frozenset")):
+                return False
+            if isinstance(v, ast.SetComp):
+                return False
+    return True
 
 
 def _log_name(it):
